@@ -202,7 +202,12 @@ class Net:
 
     # ---- construction
     def add_node(self, name, addr, coinstate, disk_interface, listen=True, nonce=None):
-        lp = self.lpmod.LocalPeer(disk_interface=disk_interface)
+        # the node is brought up by the repository's own start-up code (NetworkingThread.__init__: LocalPeer, initial chain
+        # state, peer book from the disk interface); the thread itself is never started -- the harness drives the entry points
+        from skepticoin.networking.threading import NetworkingThread
+        disk_interface.load_peers = lambda: {}          # no peers.json, no download from the network
+        thread = NetworkingThread(coinstate, addr[1] if listen else None, disk_interface)
+        lp = thread.local_peer
         lp.selector.close()
         lp.selector = FakeSelector()
         lp.running = True
@@ -210,7 +215,6 @@ class Net:
         if nonce is not None:
             lp.nonce = nonce
         lp.chain_manager.started_at = self.clock()
-        lp.chain_manager.set_coinstate(coinstate)
         node = Node(self, name, addr, lp)
         if listen:
             ls = FakeSocket(self, owner=node, listening=True)
